@@ -49,15 +49,26 @@
     * C03_Beap_order_partial   — hence the yielded costs are NON-DECREASING whenever the final
         _cost_lists[start] is non-decreasing: `sortedB`, a Boolean check on the final state that the driver
         evaluates on every generated case (certified checking).
-      FULL statement (not proved): without the hypothesis `sortedB …`.  What is missing is the invariant
-      "every queue element is at least as expensive as every entry of its cost list", which needs that a
-      query is never re-entered for the same non-terminal at the same cost (true when every rule cost
-      is > 0; false for zero-cost cycles, where query() does not terminate either).
+  THE FULL ORDER STATEMENT under POSITIVE rule costs (`PosW`: every rule cost > 0, i.e. every probability < 1;
+  with a zero-cost cycle query() does not terminate):
+    * C03_Beap_order_inv       — the ORDER INVARIANTS hold for every history after the first next: EVERY COST
+        LIST IS STRICTLY INCREASING, every queue element is at least as expensive as every entry of the cost
+        list of its non-terminal, every queue is a heap, every cost is finite and positive.  Key lemma
+        (`order_all`, PS/Proofs/Enum/BeapOrderFull.lean): a query running for S at cost x only asks for cost
+        indices of cost < x, and such nested queries never touch a non-terminal whose last cost is ≥ x
+        (`Prot`), so the tables of S do not change while its own query is suspended in the argument loop
+        (re-entrance on recursive grammars);
+    * C03_Beap_costlists_increasing — the cost lists are strictly increasing (every history);
+    * C03_Beap_order           — THE YIELDED COSTS ARE NON-DECREASING: for every fuel and every k, the costs
+        of the programs produced by `take k` from the fresh generator are pairwise non-decreasing in the
+        order of production (every prefix of the run, finite or recursive grammar), and every yielded
+        program is derivable.
   Compared on every generated case, not proved: prefix completeness and the sortedness of the cost
   lists (exact Fraction cost of every yielded program, brute-force expansion below a cost bound).
 -/
 import PS.Proofs.Enum.BeapHeadMin
 import PS.Proofs.Enum.BeapOrderRun
+import PS.Proofs.Enum.BeapOrderFinal
 import PS.Props.C02_Beap
 namespace PS.C03Beap
 open PS PS.G PS.Beap PS.Heapq
@@ -197,6 +208,55 @@ theorem C03_Beap_order_partial (E : Env S) (hnd : RowsNodup E.G) (hrec : E.recur
 
 end
 
+/-! ### the order under positive rule costs -/
+section
+variable {S : Type} [DecidableEq S]
+
+/-- **the order invariants, for every history after the first `next`** -/
+theorem C03_Beap_order_inv (E : Env S) (hnd : RowsNodup E.G) (hrec : E.recursive = true) (hprod : Productive E) (hpos : PosW E)
+    (fuel : Nat) (g : Gen S) (h : ReachS E fuel g) : GO E g := by
+  induction h with
+  | @first r hn => exact next_order E hnd hrec hprod hpos fuel _ r (gc_new E) (go_new E) (fun _ => ⟨rfl, rfl⟩) hn
+  | @next g r hr hn ih =>
+    have hst := reachS_started E fuel g hr
+    exact next_order E hnd hrec hprod hpos fuel g r (C03_Beap_cost_inv E hnd hrec hprod fuel g hr) ih
+      (fun hs => by rw [hst] at hs; cases hs) hn
+  | @merge g other ok _ ih => exact merge_order E g other ok ih
+
+/-- every cost list is strictly increasing; every queue element is at least as expensive as every entry of
+    the cost list of its non-terminal; every queue is a heap -/
+theorem C03_Beap_costlists_increasing (E : Env S) (hnd : RowsNodup E.G) (hrec : E.recursive = true) (hprod : Productive E)
+    (hpos : PosW E) (fuel : Nat) (g : Gen S) (h : ReachS E fuel g) (nt : NT S Unit) :
+    (g.st.clOf nt).Pairwise (fun a b => a.fin < b.fin) ∧
+    (∀ el c, el ∈ g.st.queueOf nt → c ∈ g.st.clOf nt → c.fin ≤ el.cost.fin) ∧
+    Heapq.IsHeap ltE (g.st.queueOf nt) := by
+  have := (C03_Beap_order_inv E hnd hrec hprod hpos fuel g h).1
+  exact ⟨this.mono nt, this.low nt, this.heap nt⟩
+
+theorem clSorted_of_oi (E : Env S) (s : St S) (h : OI s) : ClSorted E s := by
+  intro i j x y hij hx hy
+  obtain ⟨hi, rfl⟩ := List.getElem?_eq_some_iff.mp hx
+  obtain ⟨hj, rfl⟩ := List.getElem?_eq_some_iff.mp hy
+  by_cases heq : i = j
+  · subst heq; exact Rat.le_refl
+  · have := List.pairwise_iff_getElem.mp (h.mono E.G.start) i j hi hj (by omega)
+    grind
+
+/-- **ORDER (full statement, positive rule costs)**: the costs of the programs produced by `take k` from the
+    fresh generator are non-decreasing, for every fuel and every k; every yielded program has a cost
+    (is derivable) -/
+theorem C03_Beap_order (E : Env S) (hnd : RowsNodup E.G) (hrec : E.recursive = true) (hprod : Productive E) (hpos : PosW E)
+    (fuel k : Nat) (g : Gen S) (ys : List Prog) (fin : Bool) (h : take E fuel k (Gen.new E.G) [] = some (g, ys, fin)) :
+    ys.Pairwise (fun p q => ∀ a b, costOf E p E.G.start = some a → costOf E q E.G.start = some b → a ≤ b) ∧
+    ∀ p ∈ ys, ∃ a, costOf E p E.G.start = some a := by
+  obtain ⟨idx, h1, h2, _⟩ := take_index E hnd hrec hprod fuel k (Gen.new E.G) [] [] _ (gc_new E) (fun _ => ⟨rfl, rfl, rfl⟩)
+    All2.nil List.Pairwise.nil (fun i hi => by cases hi) h
+  have hgo := take_order E hnd hrec hprod hpos fuel k (Gen.new E.G) [] _ (gc_new E) (go_new E) (fun _ => ⟨rfl, rfl⟩) h
+  refine ⟨sorted_of_index E g.st (clSorted_of_oi E g.st hgo.1) ys idx h1 h2, fun p hp => ?_⟩
+  obtain ⟨i, _, c, _, hc⟩ := sorted_of_index.mem_all2 h1 p hp
+  exact ⟨c.fin, hc⟩
+end
+
 /-- `HeapElement.__lt__` is a strict weak order -/
 theorem C03_Beap_lt_weak_order : WeakOrder ltE := ltE_weak
 
@@ -250,6 +310,31 @@ theorem demo_productive : Productive demoE := by
       · subst h3; exact ⟨.node (sy 6) [], 4, by decide +kernel⟩
       · rename_i h
         simp [demoE, demoG, AList.lookup, Ne.symm h1, Ne.symm h2, Ne.symm h3] at h
+
+/-- `PosW` from a Boolean check of the cost table -/
+theorem posW_of_check {S : Type} [DecidableEq S] (E : Env S)
+    (h : E.W.all (fun r => r.2.all (fun e => decide (0 < e.2))) = true) : PosW E := by
+  intro nt P w hw
+  unfold ruleW at hw
+  split at hw
+  · cases hw
+  · next ws hws =>
+    have h1 := AList.lookup_some_mem hws
+    have h2 := AList.lookup_some_mem hw
+    rw [List.all_eq_true] at h
+    have h3 := h _ h1
+    rw [List.all_eq_true] at h3
+    simpa using h3 _ h2
+
+open PS.C02Beap in
+/-- every rule cost of the demo grammar is positive -/
+theorem demo_posW : PosW demoE := posW_of_check demoE (by decide +kernel)
+
+open PS.C02Beap in
+/-- non-vacuity of C03_Beap_order: all hypotheses hold on the demo grammar -/
+example (fuel k : Nat) (g : Gen Nat) (ys : List Prog) (fin : Bool) (h : take demoE fuel k (Gen.new demoG) [] = some (g, ys, fin)) :
+    ys.Pairwise (fun p q => ∀ a b, costOf demoE p demoG.start = some a → costOf demoE q demoG.start = some b → a ≤ b) :=
+  (C03_Beap_order demoE demo_rowsNodup rfl demo_productive demo_posW fuel k g ys fin h).1
 
 open PS.C02Beap in
 /-- non-vacuity of C03_Beap_order_partial: on the demo grammar the hypotheses hold for the first 12 programs
